@@ -401,6 +401,22 @@ def main(a):
                         elif not s:
                             disagreements.append((i, plan, res))
         t_l2 = time.time() - t1
+        # a disagreement may come from state the program keeps for the life of a process (the L1 side of a runner
+        # executes many plans in one process): decide with an L1 worker that has executed nothing before
+        confirmed = []
+        for i, plan, res in disagreements[:6]:
+            rr = L2Runner(l1, l2, manifest, "dg")
+            try:
+                again = rr.run(plan)
+            finally:
+                rr.close()
+            if again.get("l1_died") or (again["comparable"] and not again["agree"]):
+                confirmed.append((i, plan, again if not again.get("l1_died") else res))
+            else:
+                l2stats["process_reuse_artefacts"] = l2stats.get("process_reuse_artefacts", 0) + 1
+        if len(disagreements) > 6 and confirmed:
+            confirmed += disagreements[6:]
+        disagreements = confirmed
         for i, plan, res in disagreements[:3]:
             harness_errors.append("L1 and L2 disagree on random plan %d: L1 status %s, L2 status %s; stdout equal: %s; stderr equal: %s; plan: %s" %
                                   (1000000 + i, res["l1_status"], res["rc"], res["out"] == res["l1_out"], res["err"] == res["l1_err"], plan))
